@@ -392,7 +392,45 @@ def shrink(case):
                 yield dict(case, classes=_classes(ms[:j] + [m2] + ms[j + 1:]))
 
 
+_WHY = re.compile(r'(fires|detached|leftover) step=(\d+) owner=(\d+) method=(\S+)')
+
+
+def _chain(sh, t, spec):
+    """objects visited while resolving the spec from t (t first), as far as it resolves"""
+    out, cur = [t], t
+    for n in spec['path']:
+        v = sh.vals[cur][n]
+        if not isinstance(v, dict):
+            break
+        cur = v['ref']
+        out.append(cur)
+    return out
+
+
 def classify(case, impl, fail):
-    """no finding is recorded for C07 (the two defects found — group[0]-only filter/callback, rebinding one
-    root dropping the watchers below the others — were fixed): every failure is a violation"""
+    """one finding is recorded for C07: an object attached below itself along a declared path
+    (`_resolve_dynamic_deps` locates a holder by the FIRST position of the object in the chain).  The two
+    defects found earlier (group[0]-only filter/callback, rebinding one root dropping the watchers below the
+    others) were fixed: they classify to None, a regression is a violation."""
+    if fail.get('kind') != 'counterexample':
+        return None
+    why = str(fail.get('why', ''))
+    if 'model differs from implementation' in why:
+        return None
+    m = _WHY.search(why)
+    if not m:
+        return None
+    step, owner, name = int(m.group(2)), int(m.group(3)), m.group(4)
+    meth = next((x for c in case['classes'] for x in c['methods'] if x['name'] == name), None)
+    if meth is None or step >= len(case['steps']):
+        return None
+    # the graph before and after the failing step
+    for upto in (step, step + 1):
+        sh = _replay_shadow(case, upto)
+        if owner >= len(sh.cls):
+            continue
+        for spec in meth['specs']:
+            ch = _chain(sh, owner, spec)
+            if len(set(ch)) < len(ch):
+                return 'object-attached-below-itself'
     return None
